@@ -223,6 +223,10 @@ class PtyHost:
             GUARD: "1",
             "PTYHOST_REPO": self.repo,
         }
+        if os.environ.get("VERIF_COVERAGE") == "1" and os.environ.get("VERIF_COV_DIR"):
+            # measurement only (harness/cov.py): the hosted interpreter records the repo lines it executes
+            child_env.update({k: os.environ[k] for k in ("VERIF_COVERAGE", "VERIF_COV_DIR", "VERIF_COV_PREFIX")})
+            child_env["PYTHONPATH"] = os.path.join(os.path.dirname(os.path.abspath(__file__)), "covsite")
         child_env.update(env or {})
         p2c_r, p2c_w = os.pipe()
         c2p_r, c2p_w = os.pipe()
